@@ -63,6 +63,7 @@ type FuncContract struct {
 	Observes     []Clause            // Label = name
 	ReplayAssume []Clause
 	Replay       string
+	ReplayFor    map[string]string // clause label -> template (replay-for <label> <template>)
 }
 
 // GuardSpec: locations that other threads may change while the lock is free.
@@ -513,6 +514,15 @@ func (db *ContractDB) parseFile(path, pkgPath string, trusted bool) error {
 				cur.Observes = append(cur.Observes, Clause{Kind: "observe", Label: strings.TrimSpace(rest[:i]), Text: rest[i+1:], Expr: e, Src: src})
 			case "replay":
 				cur.Replay = rest
+			case "replay-for":
+				f := strings.Fields(rest)
+				if len(f) != 2 {
+					return fmt.Errorf("%s: replay-for <clause label> <template>", src)
+				}
+				if cur.ReplayFor == nil {
+					cur.ReplayFor = map[string]string{}
+				}
+				cur.ReplayFor[f[0]] = f[1]
 			case "replay-assume":
 				c, err := mkClause(word)
 				if err != nil {
